@@ -119,6 +119,10 @@ class Den:
         self.inline_index_lambdas = True
         self._lowered: dict = {}
         self.guards: list = []
+        #: nesting depth of reductions being denoted: a reduction variable of
+        #: an inner reduction gets a name of its own (no capture when an
+        #: inlined operand uses the same variable name as its consumer)
+        self._redn_depth = 0
         # reduction variables whose bounds are read from arrays (CSR rows)
         self.data_dependent_vars: list = []
 
@@ -137,7 +141,8 @@ class Den:
         for name, (lo, hi) in expr.bounds.items():
             lo_t = as_int(self.rec(lo, env))
             hi_t = as_int(self.rec(hi, env))
-            v = z3.Int(f"{name}")
+            v = z3.Int(f"{name}" if self._redn_depth == 0
+                       else f"{name}@{self._redn_depth}")
             if self._has_array_app(lo_t) or self._has_array_app(hi_t):
                 self.data_dependent_vars.append(v)
             rvars[name] = v
@@ -146,7 +151,11 @@ class Den:
         in_box = z3.And([z3.And(lo <= rvars[n], rvars[n] < hi)
                          for n, lo, hi in bounds])
         self.guards.append(in_box)
-        body = self.rec(expr.inner_expr, env2)
+        self._redn_depth += 1
+        try:
+            body = self.rec(expr.inner_expr, env2)
+        finally:
+            self._redn_depth -= 1
         self.guards.pop()
         return Reduction(expr.op, bounds, body, rvars)
 
